@@ -851,11 +851,29 @@ func c14(r *core.Run) {
 				okB = true
 			}
 		}
-		if fv, ok := b.(*ssa.FreeVar); ok && fv.Name() == "batch" {
+		// a closure using the enclosing operation's batch: the captured cell holds NewBatch()
+		holdsNewBatch := func(fv *ssa.FreeVar) bool {
+			cell := freeVarBinding(ic.fn, fv)
+			if cell == nil {
+				return false
+			}
+			if c, _ := core.CallOf(cell); c != nil && strings.HasSuffix(core.CalleeName(&c.Call), ".NewBatch") {
+				return true // captured by value
+			}
+			for _, u := range core.Uses(cell) {
+				if st, ok := u.(*ssa.Store); ok && st.Addr == cell {
+					if c, _ := core.CallOf(st.Val); c != nil && strings.HasSuffix(core.CalleeName(&c.Call), ".NewBatch") {
+						return true
+					}
+				}
+			}
+			return false
+		}
+		if fv, ok := b.(*ssa.FreeVar); ok && holdsNewBatch(fv) {
 			okB = true
 		}
 		if p, ok := core.LoadedFrom(b); ok {
-			if fv, ok := p.(*ssa.FreeVar); ok && fv.Name() == "batch" {
+			if fv, ok := p.(*ssa.FreeVar); ok && holdsNewBatch(fv) {
 				okB = true
 			}
 		}
